@@ -8,8 +8,287 @@ use log::Log;
 use log4rs::config::{Appender, Config, Root};
 use log4rs::filter::threshold::ThresholdFilter;
 
+// ---------------------------------------------------------------------------
+// Re-entrant / unwinding / two-thread histories.
+// case: ( 1 apps nodes calls mode )
+//   nodes: ( (level (attached ...)) ... )  node 0 = root, node k>0 = non-additive logger "n<k>"
+//   call:  ( id by_handler by_app node L (panicking-appender ...) (kid-call ...) )   ids unique
+//   mode:  0 = one (fresh) thread issues all top-level calls, each under catch_unwind
+//          1 = thread 1 issues the first call and blocks the first time the error handler is
+//              entered; thread 2 then issues the other calls; then thread 1 is released
+// result: (0 id app k) consult, (1 id app) deliver, (2 id app) handler, (3 id) appender panic
+// ---------------------------------------------------------------------------
+use std::collections::HashMap;
+use std::sync::mpsc::{channel, Receiver, Sender};
+use std::sync::{Arc, Mutex, Weak};
+use std::time::Duration;
+
+struct Spec {
+    node: usize,
+    level: log::Level,
+    panics: Vec<usize>,
+    kids: Vec<(bool, usize, u128)>, // (by_handler, by_app, kid id)
+}
+
+struct World {
+    table: HashMap<u128, Spec>,
+    logger: Mutex<Weak<log4rs::Logger>>,
+    rec: Rec,
+    // armed in mode 1: (tell main "in handler", wait for release)
+    blocker: Mutex<Option<(Sender<u8>, Receiver<()>)>>,
+}
+
+impl std::fmt::Debug for World {
+    fn fmt(&self, f: &mut std::fmt::Formatter) -> std::fmt::Result {
+        write!(f, "World")
+    }
+}
+
+impl World {
+    fn push(&self, v: Vec<u128>) {
+        self.rec.lock().unwrap().push(Val::L(v.into_iter().map(Val::N).collect()));
+    }
+    /// one Logger::log call for the record with this id
+    fn issue(&self, id: u128) {
+        let s = &self.table[&id];
+        let logger = self.logger.lock().unwrap().upgrade().expect("logger alive");
+        let target = if s.node == 0 { "elsewhere".to_string() } else { format!("n{}", s.node) };
+        logger.log(
+            &log::Record::builder()
+                .level(s.level)
+                .target(&target)
+                .args(format_args!("{}", id))
+                .build(),
+        );
+    }
+    fn issue_kids(&self, id: u128, by_handler: bool, app: usize) {
+        let kids: Vec<u128> = self.table[&id]
+            .kids
+            .iter()
+            .filter(|k| k.0 == by_handler && k.1 == app)
+            .map(|k| k.2)
+            .collect();
+        for k in kids {
+            self.issue(k);
+        }
+    }
+}
+
+fn rec_id(record: &log::Record) -> u128 {
+    record.args().to_string().parse().unwrap_or(99999)
+}
+
+#[derive(Debug)]
+struct ReFilter {
+    app: usize,
+    k: usize,
+    inner: Box<dyn log4rs::filter::Filter>,
+    w: Arc<World>,
+}
+
+impl log4rs::filter::Filter for ReFilter {
+    fn filter(&self, record: &log::Record) -> log4rs::filter::Response {
+        self.w.push(vec![0, rec_id(record), self.app as u128, self.k as u128]);
+        self.inner.filter(record)
+    }
+}
+
+/// An appender that records the delivery, panics if scripted to, logs the scripted nested
+/// records through the same Logger, then returns Ok / Err("app:id").
+#[derive(Debug)]
+struct ReAppender {
+    idx: usize,
+    fails: bool,
+    w: Arc<World>,
+}
+
+impl log4rs::append::Append for ReAppender {
+    fn append(&self, record: &log::Record) -> anyhow::Result<()> {
+        let id = rec_id(record);
+        self.w.push(vec![1, id, self.idx as u128]);
+        if self.w.table.get(&id).map_or(false, |s| s.panics.contains(&self.idx)) {
+            self.w.push(vec![3, id]);
+            panic!("scripted appender panic");
+        }
+        self.w.issue_kids(id, false, self.idx);
+        if self.fails {
+            Err(anyhow::anyhow!("{}:{}", self.idx, id))
+        } else {
+            Ok(())
+        }
+    }
+    fn flush(&self) {}
+}
+
+fn flatten(call: &Val, table: &mut HashMap<u128, Spec>) -> u128 {
+    let c = call.l();
+    let id = c[0].n();
+    let mut kids = vec![];
+    for k in c[6].l() {
+        let kl = k.l();
+        let kid = flatten(k, table);
+        kids.push((kl[1].b(), kl[2].n() as usize, kid));
+    }
+    let spec = Spec {
+        node: c[3].n() as usize,
+        level: level(c[4].n()),
+        panics: c[5].l().iter().map(|p| p.n() as usize).collect(),
+        kids,
+    };
+    assert!(table.insert(id, spec).is_none(), "duplicate call id");
+    id
+}
+
+fn run_reentrant(c: &[Val]) -> Val {
+    let mode = c[4].n();
+    let mut table = HashMap::new();
+    let tops: Vec<u128> = c[3].l().iter().map(|k| flatten(k, &mut table)).collect();
+    let w = Arc::new(World {
+        table,
+        logger: Mutex::new(Weak::new()),
+        rec: new_rec(),
+        blocker: Mutex::new(None),
+    });
+    let mut builder = Config::builder();
+    for (i, a) in c[1].l().iter().enumerate() {
+        let a = a.l();
+        let mut ab = Appender::builder();
+        for (k, f) in a[1].l().iter().enumerate() {
+            let f = f.l();
+            let inner: Box<dyn log4rs::filter::Filter> = match f[0].n() {
+                0 => Box::new(FixedFilter(f[1].n() as u8)),
+                _ => Box::new(ThresholdFilter::new(level_filter(f[1].n()))),
+            };
+            ab = ab.filter(Box::new(ReFilter { app: i, k, inner, w: w.clone() }));
+        }
+        builder = builder.appender(ab.build(
+            format!("a{}", i),
+            Box::new(ReAppender { idx: i, fails: a[0].b(), w: w.clone() }),
+        ));
+    }
+    let mut root = None;
+    for (k, nd) in c[2].l().iter().enumerate() {
+        let nd = nd.l();
+        let atts: Vec<String> = nd[1].l().iter().map(|a| format!("a{}", a.n())).collect();
+        if k == 0 {
+            root = Some(Root::builder().appenders(atts).build(level_filter(nd[0].n())));
+        } else {
+            builder = builder.logger(
+                log4rs::config::Logger::builder()
+                    .additive(false)
+                    .appenders(atts)
+                    .build(format!("n{}", k), level_filter(nd[0].n())),
+            );
+        }
+    }
+    let config = match builder.build(root.expect("root node")) {
+        Ok(c) => c,
+        Err(_) => return Val::err(1),
+    };
+    let hw = w.clone();
+    let logger = Arc::new(log4rs::Logger::new_with_err_handler(
+        config,
+        Box::new(move |e: &anyhow::Error| {
+            let text = e.to_string();
+            let mut it = text.split(':');
+            let app: u128 = it.next().and_then(|s| s.parse().ok()).unwrap_or(999);
+            let id: u128 = it.next().and_then(|s| s.parse().ok()).unwrap_or(99999);
+            hw.push(vec![2, id, app]);
+            let armed = hw.blocker.lock().unwrap().take();
+            if let Some((tell, wait)) = armed {
+                let _ = tell.send(1);
+                let _ = wait.recv_timeout(Duration::from_secs(20));
+            }
+            hw.issue_kids(id, true, app as usize);
+        }),
+    ));
+    *w.logger.lock().unwrap() = Arc::downgrade(&logger);
+
+    let issue_all = |w: Arc<World>, ids: Vec<u128>| {
+        for id in ids {
+            // the application catches a panic that escapes the log call
+            let _ = std::panic::catch_unwind(std::panic::AssertUnwindSafe(|| w.issue(id)));
+        }
+    };
+    if mode == 0 || tops.is_empty() {
+        let w1 = w.clone();
+        std::thread::spawn(move || issue_all(w1, tops)).join().unwrap();
+    } else {
+        let (tell_tx, tell_rx) = channel::<u8>();
+        let (rel_tx, rel_rx) = channel::<()>();
+        *w.blocker.lock().unwrap() = Some((tell_tx.clone(), rel_rx));
+        let first = vec![tops[0]];
+        let others: Vec<u128> = tops[1..].to_vec();
+        let w1 = w.clone();
+        let t1 = std::thread::spawn(move || {
+            issue_all(w1, first);
+            let _ = tell_tx.send(0); // finished (possibly after having been released)
+        });
+        // 1 = thread 1 is inside the handler, 0 = thread 1 finished without entering it
+        let _ = tell_rx.recv_timeout(Duration::from_secs(20));
+        // disarm (no-op when thread 1 took it)
+        let _ = w.blocker.lock().unwrap().take();
+        let w2 = w.clone();
+        std::thread::spawn(move || issue_all(w2, others)).join().unwrap();
+        let _ = rel_tx.send(());
+        t1.join().unwrap();
+    }
+    let ev = w.rec.lock().unwrap().clone();
+    drop(logger);
+    Val::L(ev)
+}
+
+/// Run one history in a forked child so that whatever process-wide or per-thread state a
+/// (defective) crate leaves behind cannot leak into the observation of another case: every
+/// reported difference is reproducible from its own case line.  The harness process is
+/// single-threaded here (all threads of earlier cases have been joined).
+fn run_isolated(c: &[Val]) -> Val {
+    use std::io::Read;
+    use std::os::unix::io::FromRawFd;
+    let mut fds = [0i32; 2];
+    if unsafe { libc::pipe(fds.as_mut_ptr()) } != 0 {
+        return Val::text("nopipe");
+    }
+    let pid = unsafe { libc::fork() };
+    if pid < 0 {
+        return Val::text("nofork");
+    }
+    if pid == 0 {
+        unsafe { libc::close(fds[0]) };
+        let res = std::panic::catch_unwind(std::panic::AssertUnwindSafe(|| run_reentrant(c)))
+            .unwrap_or_else(|_| Val::panic());
+        let mut out = String::new();
+        vh::val::print(&res, &mut out);
+        let bytes = out.as_bytes();
+        let mut off = 0;
+        while off < bytes.len() {
+            let n = unsafe {
+                libc::write(fds[1], bytes[off..].as_ptr() as *const libc::c_void, bytes.len() - off)
+            };
+            if n <= 0 {
+                break;
+            }
+            off += n as usize;
+        }
+        unsafe { libc::_exit(0) };
+    }
+    unsafe { libc::close(fds[1]) };
+    let mut text = String::new();
+    let mut f = unsafe { std::fs::File::from_raw_fd(fds[0]) };
+    let _ = f.read_to_string(&mut text);
+    let mut status = 0i32;
+    unsafe { libc::waitpid(pid, &mut status, 0) };
+    if text.trim().is_empty() {
+        return Val::text("childabort");
+    }
+    vh::val::parse(&text)
+}
+
 fn run(case: &Val) -> Val {
     let c = case.l();
+    if c.len() == 5 {
+        return run_isolated(&c);
+    }
     let node_level = level_filter(c[0].n());
     let lvl = level(c[1].n());
     let rec = new_rec();
